@@ -154,6 +154,7 @@ def execute(scn, keep_log=False, hook=None):
         maybe = sum(1 for r in inflight[m['stack']] if r['kind'] == mode and (r['done'] is None or sim.now < r['done'] + release_slack))
         before_frames = len(bus.frames) + len(bus.suppressed)
         lock_waits0 = sim.lock_waits
+        t_call = sim.now
         before = snapshot(st)
         # registered before the call: a submission nested inside this call's own transmission must see this session as in use
         sa0 = st.cfg['cas'][m['ca']]['addr']
@@ -176,10 +177,14 @@ def execute(scn, keep_log=False, hook=None):
         was_held = tr is not None and tr.fired > 0
         if was_held:
             stats['preempted_calls'] += 1
+        if was_held or sim.lock_waits != lock_waits0:
+            # (also for a call that waited for a lock another thread held: time passed inside the call)
             # sessions that ended while the call was held are free
-            sure = sum(1 for r in inflight[m['stack']] if r is not rec0 and r['kind'] == mode and r['done'] is None)
+            sure = sum(1 for r in inflight[m['stack']] if r is not rec0 and r['kind'] == mode and r['done'] is None and not r.get('parked_call'))
             # ... and sessions opened from callbacks meanwhile may have used the capacity up
-            maybe = max(maybe, sum(1 for r in inflight[m['stack']] if r is not rec0 and r['kind'] == mode and (r['done'] is None or sim.now < r['done'] + release_slack)))
+            # (threads that wait for a parked lock holder also release finished sessions later: the slack grows by the time spent in the call)
+            maybe = max(maybe, sum(1 for r in inflight[m['stack']] if r is not rec0 and r['kind'] == mode and (
+                r['done'] is None or sim.now < r['done'] + release_slack + (sim.now - t_call))))
         if ok is not True:
             inflight[m['stack']].remove(rec0)
         if pre:
